@@ -7,3 +7,5 @@ import UgoVerif.Props.C01
 import UgoVerif.Props.C16
 import UgoVerif.Props.C11
 import UgoVerif.Props.C09
+import UgoVerif.Props.C12
+import UgoVerif.Props.C14
